@@ -115,7 +115,7 @@ CHECKS.update({
 SPEC_TECH = "differential check of the real code (public Build + hooked forced traversal orders) against an executable Lean 4 specification + Lean theorems about that specification + property oracles"
 CHECKS.update({
  "C04": dict(category="translation_validation",
-   text="The Go weight assignment is NOT ported and no theorem is about it: every accepted real build (public Build, and through the hook every enumerated/sampled DFS start order) is compared node by node with the executable Lean specification of weights (Spec/Weights.lean), and the edge rule, absence of R# placeholders and of empty maps are evaluated on the real graph. Lean theorems (Props/C04.lean, kernel-checked on every run) show that the specification has the shape the property states: on every graph where the iteration reached a fixed point (evaluated per input by the driver) the weight map of each node is its strategy over its edges - edge = target (+1 saturating for hops, {T:1} into terminals), union/relation = pointwise max, intersection = common keys with max, exclusion = base keys with max - and an accepted graph has no empty map. Inputs matching the open finding KF-C04-operand-grouping are recognised by an ungrouped variant of the specification that the code must then equal exactly.",
+   text="The Go weight assignment is NOT ported and no theorem is about it: every accepted real build (public Build, and through the hook every enumerated/sampled DFS start order) is compared node by node with the executable Lean specification of weights (Spec/Weights.lean), and the edge rule, absence of R# placeholders and of empty maps are evaluated on the real graph. Lean theorems (Props/C04.lean, kernel-checked on every run) show that the specification has the shape the property states: on every graph where the iteration reached a fixed point (evaluated per input by the driver) the weight map of each node is its strategy over its edges - edge = target (+1 saturating for hops, {T:1} into terminals), union/relation = pointwise max, intersection = common keys with max, exclusion = base keys with max - and an accepted graph has no empty map; and that these weights MEAN what the property says, stated without reference to any iteration (Spec/WeightsSem.lean: HasType = terminal type T reaches the node through any operand of a relation/union, every operand of an intersection, the base of an exclusion; Walk = a walk to a terminal T with k tuple hops): a node carries a weight for T iff T reaches it (weight_keys_exact), a finite weight is attained by a walk and no walk has more hops (finite_weight_is_max_hops), the weight is Infinite iff the hop counts of the walks are unbounded (infinite_weight_iff_unbounded, by pigeonhole and pumping), and whatever the specification computes is witnessed by a walk with no hypothesis at all (every_weight_witnessed). Their decidable hypotheses (fixed point reached, all values Infinite or below the saturation threshold) are evaluated by the driver on every input and an input outside them is counted as not covered. Inputs matching the open finding KF-C04-operand-grouping are recognised by an ungrouped variant of the specification that the code must then equal exactly.",
    design_ref="DESIGN.md §6.4", note=TV_NOTE, technique=SPEC_TECH),
  "C05": dict(category="translation_validation",
    text="The real verdict under every enumerated/sampled depth-first start order is compared with the Lean well-foundedness specification; the error class must be one of the three sentinels. The Go algorithm is not ported. Lean theorems (Props/C05.lean) about the specification: accepted iff no node on a rewrite-only cycle, no intersection/exclusion on any cycle and every node reaches a terminal type (accepted_means); a graph containing a rewrite-only cycle is rejected whatever else it contains (rewrite_only_cycle_never_passes); the cycle test is sound (cycle_flag_sound) and, on graphs where every referenced node exists (evaluated per input), complete (cycle_flag_exact: the fuel of the search suffices).",
